@@ -18,7 +18,9 @@ def run(ctx):
         if rc != 0:
             ctx.tie_ok = False
             what = "lookup harness %s (rc=%d): %s" % ("timed out: lookup did not terminate" if rc == 124 else "aborted", rc, err[-600:])
-            ctx.violation({"harness_rc": rc, "stderr": err[-2000:], "replay_cmd": "VERIF_SEED=%d python3 bin/check.py C04 --tier %s" % (ctx.seed, ctx.tier)}, what)
+            tbl, lc = E.last_case(cases)
+            what += " | last input before it stopped: " + lc[:200]
+            ctx.violation({"harness_rc": rc, "stderr": err[-2000:], "last_table": tbl, "last_case_line": lc, "replay_cmd": "VERIF_SEED=%d python3 bin/check.py C04 --tier %s" % (ctx.seed, ctx.tier)}, what)
             continue
         model = cases + ".model"
         if not ctx.driver_ok() or not ctx.run_driver("EV", cases, model):
